@@ -40,6 +40,15 @@ CHECKS = {
          'AtomicOnRaise (tree, text, source parse unchanged), RegistryQuiescent, NextEditAfterRaise (same result as on a '
          'freshly built tree).',
          'TLC model checking of Registry spec + TLA+ trace validation of failing/valid edit histories'),
+ 'C20': ('model_checking', '4-C20',
+         'Option store and thread isolation are specified in TLA+ (Options.tla, Threads.tla with Registry.tla) and '
+         'model-checked exhaustively for 1-3 threads and small constants including all interleavings of sub-call steps. '
+         'The real FST.options/set_options/get_options/get_option, per-call options and concurrent edits are validated '
+         'against that specification by TLC on TLC-generated behaviours replayed with real threads (store of every thread '
+         'after every step; schedules at yield points inside pfst) and on free-running multi-thread stress compared with '
+         'solo re-runs.',
+         'TLC model checking + two-way conformance: -simulate behaviours replayed under a step controller, recorded '
+         'executions validated by OptionsTrace.tla; auxiliary registry log via a PFST_VERIF-guarded run-time wrapper'),
 }
 
 NOT_YET = {}
